@@ -894,6 +894,9 @@ func (c *Ctx) checkPooledSlicesDisjoint(rule string) {
 		rets := returnsOf(lit)
 		isSlice := false
 		for _, r := range rets {
+			if len(r.Results) == 0 {
+				continue
+			}
 			for _, va := range resultValues(r, 0) {
 				v := stripConv(va.Val)
 				if _, ok := v.Type().Underlying().(*types.Slice); !ok {
